@@ -120,19 +120,22 @@ package internal
 //@   safety C18
 //@   requires c != nil
 //@   pure
-//@   ensures result == timeBefore(c.ExpiresAt, c.UpdatedAt)
+// a deadline is judged by the timestamps carried in messages only, never by the node's clock
+//@   ensures[C08.time.message,C05.deadline] result == timeBefore(c.ExpiresAt, c.UpdatedAt)
 
 //@ func (*DKGConfirmation).IsExpired
 //@   safety C18
 //@   requires c != nil
 //@   pure
-//@   ensures result == timeBefore(c.ExpiresAt, c.UpdatedAt)
+// a deadline is judged by the timestamps carried in messages only, never by the node's clock
+//@   ensures[C08.time.message,C05.deadline] result == timeBefore(c.ExpiresAt, c.UpdatedAt)
 
 //@ func (*SigningConfirmation).IsExpired
 //@   safety C18
 //@   requires c != nil
 //@   pure
-//@   ensures result == timeBefore(c.ExpiresAt, c.UpdatedAt)
+// a deadline is judged by the timestamps carried in messages only, never by the node's clock
+//@   ensures[C08.time.message,C05.deadline] result == timeBefore(c.ExpiresAt, c.UpdatedAt)
 
 // ---- ordered iteration
 //
